@@ -114,6 +114,9 @@ func RenderOK(a any) bool {
 		if v == nil || v.Op < 0 || v.Op >= 20 {
 			return false // typed-nil children and undeclared operators are never produced by the parser or the decoder
 		}
+		if expr.LeafOp(v.Op) && v.Right != nil {
+			return false // a term has nothing on its right
+		}
 		if v.Op == expr.Range {
 			b, ok := v.Right.(*expr.RangeBoundary)
 			if !ok || b == nil {
@@ -171,6 +174,13 @@ func SerializeErr(b Base, in any) error {
 func BoundaryOf(a any) *expr.RangeBoundary {
 	v, _ := a.(*expr.RangeBoundary)
 	return v
+}
+
+// IsExprVal / ExprOf: a holds an expression pointer.
+func IsExprVal(a any) bool { _, ok := a.(*expr.Expression); return ok }
+func ExprOf(a any) *expr.Expression {
+	e, _ := a.(*expr.Expression)
+	return e
 }
 
 // IsBoundaryVal: a is a range boundary.
@@ -267,6 +277,7 @@ func SimpleOperand(in any) bool {
 //@   ensures  in == nil ==> s == "" && err == nil
 //@   ensures[no-partial-sql] Builtin(b) && err != nil ==> s == ""
 //@   ensures[boundary-text] IsBoundaryVal(in) && err == nil ==> len(s) >= 4
+//@   ensures[expression-is-rendered] IsExprVal(in) ==> (err == nil) == (RenderErr(b, ExprOf(in)) == nil)
 //@   ensures[boundary-errors-propagate] IsBoundaryVal(in) && err == nil ==> SerializeErr(b, BoundaryOf(in).Min) == nil && SerializeErr(b, BoundaryOf(in).Max) == nil
 //@   ensures[string-quoted] IsStringVal(in) ==> err == nil && s == "'"+strings.ReplaceAll(StringOf(in), "'", "''")+"'"
 //@   ensures[column-quoted] IsColumnVal(in) && err == nil ==> len(ColumnOf(in)) > 0 && !strings.ContainsRune(ColumnOf(in), '"') && s == "\""+ColumnOf(in)+"\""
@@ -325,6 +336,7 @@ func OneStringParam(params []any, v string) bool {
 //@   ensures  e == nil ==> s == "" && err == nil && len(params) == 0
 //@   ensures[no-partial-sql] Builtin(b) && err != nil ==> s == ""
 //@   ensures[string-leaf-is-one-param] err == nil && e != nil && expr.LeafOp(e.Op) && e.Right == nil && IsStringVal(e.Left) ==> OneStringParam(params, StringOf(e.Left))
+//@   ensures[errors-propagate] e != nil ==> ParamStepErr(b, e, err)
 
 //@ func (Base).serializeBoundParam
 //@   props C04 C13 C01
@@ -334,6 +346,7 @@ func OneStringParam(params []any, v string) bool {
 //@   fuel 2 RenderOK=2
 //@   requires RenderOK(in) && RangAt(b)
 //@   ensures[no-partial-sql] Builtin(b) && err != nil ==> s == ""
+//@   ensures[bound-errors] err == nil ==> IsOpenEnd(in) || SerializeParamsErr(b, in) == nil
 
 //@ func (Base).serializeParams
 //@   props C04 C10 C13 C15 C01 C08
@@ -346,6 +359,8 @@ func OneStringParam(params []any, v string) bool {
 //@   ensures[no-partial-sql] Builtin(b) && err != nil ==> s == ""
 //@   ensures[boundary-text] IsBoundaryVal(in) && err == nil ==> len(s) >= 4
 //@   ensures[string-is-param] IsStringVal(in) ==> err == nil && s == "?" && OneStringParam(params, StringOf(in))
+//@   ensures[expression-is-rendered] IsExprVal(in) ==> (err == nil) == (RenderParamErr(b, ExprOf(in)) == nil)
+//@   ensures[boundary-errors-propagate] IsBoundaryVal(in) && err == nil ==> SerializeBoundErr(b, BoundaryOf(in).Min) == nil && SerializeBoundErr(b, BoundaryOf(in).Max) == nil
 //@   ensures[string-leaf-is-one-param] err == nil && IsStrLeaf(in) ==> OneStringParam(params, LeafString(in))
 //@   ensures[column-quoted] IsColumnVal(in) && err == nil ==> len(ColumnOf(in)) > 0 && !strings.ContainsRune(ColumnOf(in), '"') && s == "\""+ColumnOf(in)+"\"" && len(params) == 0
 //@   loop 0: rangeinv true
@@ -383,6 +398,7 @@ func LemmaParsedRenderable(a any) {
 //@   trusted
 //@   props C15 C14
 //@   ensures Builtin(result.Base) && RangAt(result.Base)
+//@   ensures !Registered(result.Base, expr.Fuzzy) && !Registered(result.Base, expr.Boost)
 
 // LemmaDecodedBoundaryRenderable: a decoded range boundary (two decoded leaves) can be rendered.
 //
@@ -425,5 +441,140 @@ func LemmaDecodedRenderable(a any) {
 	}
 	if b, isB := e.Right.(*expr.RangeBoundary); isB && b != nil {
 		LemmaDecodedBoundaryRenderable(b)
+	}
+}
+
+// ---- C15: a missing render function makes the whole rendering fail ------------------------------------
+
+// HasOp: some node of the tree (as Render walks it) carries operator op.
+func HasOp(a any, op expr.Operator) bool {
+	switch v := a.(type) {
+	case *expr.Expression:
+		if v == nil {
+			return false
+		}
+		return v.Op == op || HasOp(v.Left, op) || HasOp(v.Right, op)
+	case *expr.RangeBoundary:
+		return v != nil && (HasOp(v.Min, op) || HasOp(v.Max, op))
+	}
+	return false
+}
+
+// RenderErr / SerializeErr2: the error component of the two mutually recursive renderers.
+func RenderErr(b Base, e *expr.Expression) error {
+	_, err := b.Render(e)
+	return err
+}
+
+// LemmaUnregisteredFails: if any node's operator has no registered function, Render
+// fails (induction over the tree along Render's own recursion).
+//
+//@ func LemmaUnregisteredFails
+//@   lemma
+//@   structural
+//@   props C15
+//@   fuel 1 HasOp=2 RenderOK=2
+//@   requires[renderable] RenderOK(a)
+//@   requires[table] RangAt(b) && !Registered(b, op)
+//@   requires[has-op] HasOp(a, op)
+//@   ensures  SerializeErr(b, a) != nil
+
+func LemmaUnregisteredFails(b Base, a any, op expr.Operator) {
+	switch v := a.(type) {
+	case *expr.Expression:
+		if v == nil || v.Op == op {
+			return
+		}
+		if HasOp(v.Left, op) {
+			LemmaUnregisteredFails(b, v.Left, op)
+			return
+		}
+		LemmaUnregisteredFails(b, v.Right, op)
+	case *expr.RangeBoundary:
+		if v == nil {
+			return
+		}
+		if HasOp(v.Min, op) {
+			LemmaUnregisteredFails(b, v.Min, op)
+			return
+		}
+		LemmaUnregisteredFails(b, v.Max, op)
+	}
+}
+
+// ---- the same for the parameterised renderer ------------------------------------------------------------
+
+// SerializeBoundErr: error component of serializeBoundParam.
+func SerializeBoundErr(b Base, in any) error {
+	_, _, err := b.serializeBoundParam(in)
+	return err
+}
+
+// IsOpenEnd: the value is the unbounded range end *.
+func IsOpenEnd(in any) bool {
+	e, ok := in.(*expr.Expression)
+	if !ok || e == nil || e.Op != expr.Wild {
+		return false
+	}
+	s, isStr := e.Left.(string)
+	return isStr && s == "*"
+}
+
+// SerializeParamsErr / RenderParamErr: error components of the parameterised renderers.
+func SerializeParamsErr(b Base, in any) error {
+	_, _, err := b.serializeParams(in)
+	return err
+}
+
+func RenderParamErr(b Base, e *expr.Expression) error {
+	_, _, err := b.RenderParam(e)
+	return err
+}
+
+// ParamStepErr: RenderParam(e) succeeds only if both children render and - except
+// for the pattern-match and range nodes, which bypass the table - the operator has
+// a registered function.
+func ParamStepErr(b Base, e *expr.Expression, err error) bool {
+	if err != nil {
+		return true
+	}
+	return SerializeParamsErr(b, e.Left) == nil && SerializeParamsErr(b, e.Right) == nil &&
+		(e.Op == expr.Like || e.Op == expr.Range || Registered(b, e.Op))
+}
+
+// LemmaUnregisteredFailsParam: the parameterised renderer fails on every tree with a
+// node whose operator has no registered function (pattern matches and ranges never
+// consult the table, so op must be another operator).
+//
+//@ func LemmaUnregisteredFailsParam
+//@   lemma
+//@   structural
+//@   props C15
+//@   fuel 1 HasOp=2 RenderOK=2
+//@   requires[renderable] RenderOK(a)
+//@   requires[table] RangAt(b) && !Registered(b, op) && op != expr.Like && op != expr.Range && op != expr.Wild
+//@   requires[has-op] HasOp(a, op)
+//@   ensures  SerializeParamsErr(b, a) != nil
+
+func LemmaUnregisteredFailsParam(b Base, a any, op expr.Operator) {
+	switch v := a.(type) {
+	case *expr.Expression:
+		if v == nil || v.Op == op {
+			return // node
+		}
+		if HasOp(v.Left, op) {
+			LemmaUnregisteredFailsParam(b, v.Left, op)
+			return
+		}
+		LemmaUnregisteredFailsParam(b, v.Right, op)
+	case *expr.RangeBoundary:
+		if v == nil {
+			return
+		}
+		if HasOp(v.Min, op) {
+			LemmaUnregisteredFailsParam(b, v.Min, op)
+			return
+		}
+		LemmaUnregisteredFailsParam(b, v.Max, op)
 	}
 }
